@@ -199,11 +199,13 @@ class StringDataEncoding(DataEncoding):
                     self.byte_order = "mostSignificantByteFirst"
                 else:
                     raise ValueError("Byte order must be specified for multi-byte character encodings.")
+            else:
+                self.byte_order = byte_order
         else:
             self.byte_order = byte_order
-            if self.byte_order and self.byte_order not in ("leastSignificantByteFirst", "mostSignificantByteFirst"):
-                raise ValueError("If specified, byte order must be one of `leastSignificantByteFirst`, "
-                                 "`mostSignificantByteFirst`.")
+        if self.byte_order and self.byte_order not in ("leastSignificantByteFirst", "mostSignificantByteFirst"):
+            raise ValueError("If specified, byte order must be one of `leastSignificantByteFirst`, "
+                             "`mostSignificantByteFirst`.")
 
         if termination_character and leading_length_size:
             raise ValueError("Got both a termination character and a leading size for a string encoding.")
@@ -453,6 +455,8 @@ class StringDataEncoding(DataEncoding):
         : ElementTree.Element
         """
         element = elmaker.StringDataEncoding(encoding=self.encoding)
+        if self.byte_order:
+            element.attrib["byteOrder"] = self.byte_order
 
         if self.fixed_length:
             size_element = elmaker.SizeInBits(
